@@ -8,6 +8,10 @@ impl Limb {
     /// Panics if `shift` overflows `Limb::BITS`.
     #[inline(always)]
     pub const fn shr(self, shift: u32) -> Self {
+        assert!(
+            shift < Self::BITS,
+            "`shift` within the bit size of the integer"
+        );
         Limb(self.0 >> shift)
     }
 
